@@ -20,7 +20,7 @@ class DataframeIterator(rbql_engine.RBQLInputIterator):
         self.NR = 0
         # TODO include `Index` into the list of addressable variable names.
         self.column_names = get_dataframe_column_names_for_rbql(table)
-        self.table_itertuples = self.table.itertuples(index=False)
+        self.table_itertuples = self.table.itertuples(index=False, name=None) # Plain tuples: a namedtuple cannot be built for every set of distinct column names (e.g. names that differ only in Unicode normalisation form)
 
     def get_variables_map(self, query_text):
         variable_map = dict()
